@@ -423,6 +423,11 @@ def finish(prop, args, seed, t0, results):
             assumptions.append(f"[{r['unit']}] {a}")
     if unlisted:
         infra.append("trusted construct inside extracted function text: " + "; ".join(unlisted[:5]))
+    # obligations that are recorded known findings are reported separately (coverage.known_findings):
+    # the proof claim covers the remaining ones
+    known_names = {k["obligation"] for k, _ in known_hits}
+    kf_obls = [o for o in obligations if o["name"] in known_names]
+    obligations = [o for o in obligations if o["name"] not in known_names]
     n_obl = len(obligations)
     n_dis = sum(1 for o in obligations if o["status"] == "discharged")
     bounded = [dict(o) for r in results for o in r.get("bounded_obligations", []) if prop in (o.get("props") or [])]
